@@ -46,6 +46,18 @@ CHECKS = {
    note='Trusted: clang front end; correctly rounded host printf and C literal parsing; union same-size type punning. '
         'Not decided: the run-time value the C compiler assigns to the literal.',
    ref='DESIGN.md 4/C07'),
+ 'C13': dict(
+   technique='typestate analysis by partial evaluation: summary of fd_close gives the CLOSED record; every descriptor-taking import of both ABI generations is evaluated on CLOSED and on a never-issued index; syntactic who-writes rules for the append-only table',
+   text='The descriptor table only grows by one in the insertion helper, insertion returns the new last index and leaves live slots '
+        'untouched, only the table helpers store into slots, wasiInit installs the host standard streams first. fd_close is '
+        'summarised on an unknown slot: every value passed to close/closedir/free must be overwritten in the table by a dead '
+        'constant on success. All 44 descriptor-taking entry points (22 imports x 2 generations) are then partially evaluated '
+        'on that closed record and on an out-of-range index with all other arguments unknown: no native call, no string or free '
+        'operation on a descriptor field, and EBADF on every path. Because indices are never reused and the closed state is a '
+        'single constant record, this decides "invalid after close" for all call sequences.',
+   note='Host close/closedir outcomes, allocation failure and descriptor exhaustion are not considered; imports that are '
+        'unimplemented upstream (unconditional ENOSYS) are listed in the evidence but not decided.',
+   ref='DESIGN.md 4/C13'),
  'C16': dict(
    technique='finite table check: partial evaluation dispatch -> template -> runtime function path summary (one __atomic builtin, width, order, wrapping, zero-extension)',
    text='All 63 atomic access flavours (0xFE 0x10-0x4E) are followed from the sub-opcode through the emitter to the runtime function; '
